@@ -167,6 +167,9 @@ func (w *World) SeedStandardWith(atomPrice math.LegacyDec, usdc string) *Std {
 		// stablestake liquidity (through the real message server so every hook fires)
 		ss := sskeeper.NewMsgServerImpl(*app.StablestakeKeeper)
 		for _, a := range w.Accts[:2] {
+			if w.NoVaultBond {
+				break
+			}
 			if _, err := ss.Bond(ctx, &sstypes.MsgBond{Creator: a.Addr.String(), Amount: m(400_000_000_000)}); err != nil {
 				panic(err)
 			}
